@@ -461,6 +461,17 @@ def reportedAt (fmt : Fmt) (strLineno : Nat) (doc : List Char) (source obj : Loc
   reportInherited ⟨source.file, docObj strLineno doc source.obj.linenumber source.obj.isModule⟩ obj
     (secOf c.cls) (constructOffset fmt c.cls ((c.raw : Int) - (dropped doc : Nat)) c.j)
 
+/-! ### `obj.__doc__ = "…"` (`astbuilder._handleDocstringUpdate`)
+
+The assigned text becomes `obj.docstring` (cleaned like a literal) and `parsed_docstring` is reset;
+`setDocstring` is **not** called: `docstring_lineno` stays what the definition's own docstring
+literal gave (0 when there was none) and `linenumber` stays the line of the definition. -/
+
+def Obj.assignDoc (o : Obj) : Obj := o
+
+/-- line reported for a problem `off` lines into the assigned text -/
+def reportAfterDocAssignment (o : Obj) (sec : Sec) (off : Int) : Line := report o.assignDoc sec off
+
 /-! ### objects moved by a re-export
 
 `Documentable.description` (the file name in front of every warning) is `str(self.source_path)`;
